@@ -417,7 +417,7 @@ func init() {
 	Checks["C20"] = func(r *evid.Run) {
 		registerStandardExt()
 		c20stats = NewStats()
-		dl := deadline(r, 50*time.Second, 15*time.Minute)
+		dl := deadline(r, 120*time.Second, 15*time.Minute)
 		b := 3
 		if thorough(r) {
 			b = 4
